@@ -55,6 +55,7 @@ class Ctx:
         self.functions = set()
         self.assumptions = list(COMMON_ASSUMPTIONS)
         self.floors = []
+        self.floor_failures = []
 
     # --- recording
     def ob(self, rule, instance, ok, detail=None):
@@ -94,7 +95,8 @@ class Ctx:
         """Vacuity guard: an instance count must not fall below the hand-confirmed floor."""
         self.floors.append({'what': what, 'count': n, 'floor': minimum})
         if n < minimum:
-            raise AnalysisError(f'vacuity guard: {what}: found {n}, expected at least {minimum}')
+            # judged at the end: a run that has real findings reports them; otherwise the run is analysis-broken
+            self.floor_failures.append(f'vacuity guard: {what}: found {n}, expected at least {minimum}')
 
 
 def load_known():
@@ -118,6 +120,8 @@ def finish(ctx, t0, explanation, technique):
             print(f'KNOWN-FINDING: property={ctx.prop} {f.rule} {f.func}: {k.get("what", f.what)}')
         else:
             new.append(f)
+    if ctx.floor_failures and not new:
+        raise AnalysisError('; '.join(ctx.floor_failures))
     evdir = os.path.join(VERIF, 'evidence')
     os.makedirs(os.path.join(evdir, 'replay'), exist_ok=True)
     for i, f in enumerate(new):
